@@ -4,7 +4,7 @@ import json
 from . import encode, pelrun, project, seams
 
 BASE = ('Section Version', 'Sub-section type', 'Created by')
-FIXTURE_COMPS = {'ok': [0x11, 0x11], 'ok_lead0': [0x0A, 0x0B], 'ok_letters': [0xAB, 0xCD], 'nondict': [0x22, 0x22], 'none': [0x33, 0x33], 'raise': [0x44, 0x44], 'raise_empty': [0x77, 0x77],
+FIXTURE_COMPS = {'ok': [0x11, 0x11], 'ok_lead0': [0x0A, 0x0B], 'ok_letters': [0xAB, 0xCD], 'ok_bmccomp': [0x20, 0x00], 'nondict': [0x22, 0x22], 'none': [0x33, 0x33], 'raise': [0x44, 0x44], 'raise_empty': [0x77, 0x77],
                  'importerror': [0x55, 0x55], 'importfails': [0x88, 0x88]}
 # modules that exist but fail while being loaded: RuntimeError, NameError, FileNotFoundError, SyntaxError
 BROKEN_COMPS = [[0x88, 0x88], [0x88, 0x89], [0x88, 0x8A], [0x88, 0x8B]]
